@@ -62,6 +62,10 @@ CLAIMED = {
     text="SSH: the banner parser is extracted from MIR as a finite automaton over (state, prev_state) by evaluating the loop body for all reachable states x 256 bytes (15 states, one-byte push-back after a lone CR included); it is a pure fold, EOB and FAIL are absorbing, and on the product with two reference automata written from the statement every identification 'SSH-' [0-9.]+ '-' software [SP comment] CR LF (lone CR allowed inside software/comment) reaches EOB while nothing that is not 'SSH-' [0-9.]* '-' ... CR LF does; ssh::repl answers exactly the constant SSH-2.0-1 CR LF and only behind state == EOB of the state parsed from this payload. Gh0st: reply = magic ++ LE32(len(compressed)+len(magic)+8) ++ LE32(len of the buffer fed to the encoder) ++ encoder output, by provenance of the two length counters, their (x % 256, x /= 256) x4 emission loops and the order of appends.",
     note="flate2 producing a stream that inflates to its input is trusted. The SSH-2.0/SSH-1.99 prefix requirement is the dispatcher signature (C10).",
     technique="FSM extraction by exhaustive partial evaluation of MIR + automata inclusion + provenance", ref="§4 C18"),
+ 'C17': dict(
+    text="Reader/writer agreement extracted from MIR: the reader layout of every SMB dissector (order, width and endianness of the fields, from the per-state arms of parse(): which field is written, by which reader, which state follows) and the writer layout of every repl() (ordered append sequence with byte widths and running offsets) are computed; (R1) each correlation field (SMB1 command/PIDHigh/TID/PIDLow/UID/MID, SMB2 command/MessageId/AsyncId/SessionId) is written at exactly the offset and width it was read from, the magic is first, the reply flag sits at the offset the request flags are read from, the payload follows a header of the request's header length, all appends run once on every reply path; (R2) every embedded length/offset is derived from the bytes actually appended: SecurityBufferOffset = 64 + bytes appended before the blob, blob length fields = len() of the very constant appended, ByteCount = bytes following it, WordCount*2 = parameter bytes present, NetBIOS length = len(payload) as 17-bit big-endian; (R3) only commands {0x72,0x73}/{0,1} get a dissector, a reply needs d.state == End on every path (path-sensitive), SMB2 without an offered supported dialect yields None, the SMB1 dialect index is a position() in the client's list.",
+    note="The dialect strings/codes accumulated by the byte FSM and the contents of the security blobs are not decided.",
+    technique="reader-layout and writer-layout extraction from MIR + offset/length arithmetic agreement", ref="§4 C17"),
 }
 
 NOT_YET = {}
